@@ -1,5 +1,7 @@
 //! Graph loading: runs .ninja parsing and constructs the build graph from it.
 
+#[cfg(n2_verif)]
+use crate::verif::shim as std;
 use crate::{
     canon::{canonicalize_path, to_owned_canon_path},
     db,
